@@ -219,23 +219,35 @@ func (vc *VC) trIdent(e *EIdent, env *specEnv, c *Clause) sval {
 		return sval{term: fmt.Sprintf("(select %s %s)", env.st.get(k), cell.term), typ: t}
 	}
 	if env.locals {
-		// named local variable: the most recent definition that dominates the current block
+		// Named local variable: the SSA value that holds it at the current point. Candidates are the values
+		// the debug information ties to the name (definitions, uses) and the phi nodes created for it; the
+		// right one is the candidate defined in the NEAREST dominating block (a stale, older definition must
+		// never be picked when the variable was reassigned on some path: SSA then has a phi at the join).
 		refs := vc.localRefs[e.Name]
-		for i := len(refs) - 1; i >= 0; i-- {
-			r := refs[i]
-			if vc.cur == nil || r.b == vc.cur || r.b.Dominates(vc.cur) {
-				if _, isTuple := r.v.Type().(*types.Tuple); isTuple {
-					break
-				}
-				if r.cell {
-					ct := deref(r.v.Type())
-					if _, isStruct := structOf(ct); isStruct {
-						return sval{term: vc.val(r.v), typ: r.v.Type()}
-					}
-					return sval{term: fmt.Sprintf("(select %s %s)", env.st.get(vc.cellKey(ct)), vc.val(r.v)), typ: ct}
-				}
-				return sval{term: vc.val(r.v), typ: r.v.Type()}
+		best := -1
+		bestDepth := -1
+		for i, r := range refs {
+			if !(vc.cur == nil || r.b == vc.cur || r.b.Dominates(vc.cur)) {
+				continue
 			}
+			if _, isTuple := r.v.Type().(*types.Tuple); isTuple {
+				continue
+			}
+			d := domDepth(r.b)
+			if d > bestDepth || (d == bestDepth && i > best) {
+				best, bestDepth = i, d
+			}
+		}
+		if best >= 0 {
+			r := refs[best]
+			if r.cell {
+				ct := deref(r.v.Type())
+				if _, isStruct := structOf(ct); isStruct {
+					return sval{term: vc.val(r.v), typ: r.v.Type()}
+				}
+				return sval{term: fmt.Sprintf("(select %s %s)", env.st.get(vc.cellKey(ct)), vc.val(r.v)), typ: ct}
+			}
+			return sval{term: vc.val(r.v), typ: r.v.Type()}
 		}
 	}
 	if key, gd, ok := vc.ghostKey(e.Name); ok && (gd == nil || gd.Kind == "var") {
@@ -254,6 +266,14 @@ func (vc *VC) trIdent(e *EIdent, env *specEnv, c *Clause) sval {
 	}
 	vc.specFail(c, "unknown identifier %q", e.Name)
 	return sval{}
+}
+
+func domDepth(b *ssa.BasicBlock) int {
+	d := 0
+	for x := b.Idom(); x != nil; x = x.Idom() {
+		d++
+	}
+	return d
 }
 
 func (vc *VC) trObject(obj types.Object, env *specEnv, c *Clause) sval {
